@@ -224,11 +224,27 @@ Print Assumptions C15_wait_procs_meets_oracle_fuel.
    cache).  Once a status has been collected by EITHER side -- 0 included -- wait() returns it at once, for every
    kernel (ECHILD, a stranger owning the recycled PID ...), timeout and fuel: no kernel call, no sleep, no time *)
 Theorem C15_popen_wait_collected : forall W E pid st tmo fuel t0 v,
+  bad_timeout tmo = false ->
   sub_rc st = Some v -> popen_wait W E pid st tmo fuel t0 = (RInt v, st, t0, []).
 Proof. exact popen_wait_collected. Qed.
 Print Assumptions C15_popen_wait_collected.
 
-(* ... along every later history of subprocess-side collections, psutil waits over arbitrary kernels and pauses *)
+(* a negative timeout raises ValueError in EVERY state of a Popen -- status collected or not -- and leaves the
+   state, the clock and the kernel untouched (code as is, after fix 4baf627) *)
+Theorem C15_popen_negative_timeout : forall W E pid st t fuel t0,
+  t < 0 -> popen_wait W E pid st (Some t) fuel t0 = (RValueError, st, t0, []).
+Proof. exact popen_negative_timeout. Qed.
+Print Assumptions C15_popen_negative_timeout.
+
+(* fixed finding: before 4baf627 Popen.wait(-1) returned the collected status instead of raising *)
+Theorem C15_popen_legacy_negative_refuted :
+  exists st v, sub_rc st = Some v /\
+    forall W E pid fuel t0, popen_wait_legacy W E pid st (Some (-1 # 1)) fuel t0 = (RInt v, st, t0, []).
+Proof. exact popen_legacy_negative_refuted. Qed.
+Print Assumptions C15_popen_legacy_negative_refuted.
+
+(* ... along every later history of subprocess-side collections, psutil waits over arbitrary kernels and pauses
+   (at_once v: the result is v -- ValueError when that wait's timeout is negative --, no time passes, no sleep) *)
 Theorem C15_popen_sticky : forall pid h st t v,
   sub_rc st = Some v ->
   Forall (at_once v) (fst (run_pev pid h st t)) /\ snd (run_pev pid h st t) = st.
